@@ -58,7 +58,7 @@ def render_def(d, annotations=None):
     for f in d["fields"]:
         req = "" if kind == "union" else ("required " if f["req"] else "optional ")
         dflt = "" if f["def"].get("k") == "none" else " = " + literal(f["def"])
-        fa = ann.get(f["name"], "")
+        fa = ann.get(f["name"], "") or f.get("ann", "")
         lines.append("  %d: %s%s %s%s%s" % (f["id"], req, texpr(f["t"]), f["name"], dflt, (" (%s)" % fa) if fa else ""))
     return "%s %s {\n%s\n}\n" % (kind, d["name"], "\n".join(lines))
 
